@@ -1,6 +1,7 @@
 package rules
 
 import (
+	"math/big"
 	"fmt"
 	"strings"
 
@@ -103,6 +104,15 @@ func checkC04(c *Ctx) {
 	// "a later Get is able to build again": the stale value re-stored for UpdateTTL expires again, i.e. Trait.TTL honours the context TTL
 	// whatever the configured default is (C06 R06.6), and a waiter gets the owner's result (C02 R02.2)
 	c.borrow("C06", func() { c.c06TraitTTL() }, func(o *coreObl) (string, bool) { return "R04.6", o.Rule == "R06.6" })
+	// … the TTL it is re-stored with is never the zero "backend default" (which may be unlimited): the constructor replaces a zero
+	// UpdateTTL after the options ran (C06 R06.2); and the failure entry / re-store get the TTL the Failover asked for, not one
+	// inherited from the caller's context: WithTTL without update always shadows with a fresh cell (C06 R06.3)
+	c.borrow("C06", func() {
+		for _, sib := range siblings {
+			c.ctorDefaults("R06.2", "New"+sib, "config", map[string]*big.Rat{"UpdateTTL": big.NewRat(60*1000000000, 1)})
+		}
+		c.c06WithTTL()
+	}, func(o *coreObl) (string, bool) { return "R04.6", o.Rule == "R06.2" || o.Rule == "R06.3" })
 	c.borrow("C02", func() {
 		for _, sib := range siblings {
 			if fo := c.failover(sib); fo.Err == nil {
